@@ -55,13 +55,24 @@ func c03T6Names(r *core.R, v *c04Verdicts) int {
 				paths := x.Run(fi, nil)
 				c03DumpPaths(r.P, fi, "names, attribute "+xf.Name, paths)
 				bad, reaches := "", false
+				convBad, convUnknown := "", ""
+				_, _, numeric := c03FieldBits(xf.Var.Type())
 				for _, pa := range paths {
 					if pa.End == "panic" || pa.End == "stuck" {
 						continue
 					}
 					// (a path on which a helper maps an empty value to a constant does not carry the value: some path must)
-					if c03FromAttrValue(final(x, pa, xf.Var), start) {
+					if fv := final(x, pa, xf.Var); c03FromAttrValue(fv, start) {
 						reaches = true
+						if numeric {
+							b, u := c03Conversion(fv, xf.Var.Type(), start)
+							if b != "" && convBad == "" {
+								convBad = b
+							}
+							if u != "" && convUnknown == "" {
+								convUnknown = u
+							}
+						}
 					}
 					for i := 0; i < st.NumFields(); i++ {
 						if g := st.Field(i); g != xf.Var && c03FromAttrValue(final(x, pa, g), start) && bad == "" {
@@ -78,6 +89,18 @@ func c03T6Names(r *core.R, v *c04Verdicts) int {
 					v.bad(c, fi.Decl.Pos(), "with an attribute named %q on the start element, %s.%s (tagged `%s`) receives its value on no path: the hand-written decoder drops what the tag (and marshalling) says the field carries", xf.Name, tname, xf.Var.Name(), c03TagOf(xf))
 				default:
 					v.ok(c, fi.Decl.Pos(), "the Value of attribute %q reaches %s.%s, the field tagged `%s`, and no other field", xf.Name, tname, xf.Var.Name(), c03TagOf(xf))
+				}
+				if numeric && reaches && x.Aborted == "" {
+					n++
+					cc := "conv@" + name + " " + xf.Name
+					switch {
+					case convBad != "":
+						v.bad(cc, fi.Decl.Pos(), "%s.%s (%s) from attribute %q: %s", tname, xf.Var.Name(), c03Short(xf.Var.Type()), xf.Name, convBad)
+					case convUnknown != "":
+						v.unknown(cc, fi.Decl.Pos(), "%s.%s (%s) from attribute %q: on some path %s", tname, xf.Var.Name(), c03Short(xf.Var.Type()), xf.Name, convUnknown)
+					default:
+						v.ok(cc, fi.Decl.Pos(), "on every path that stores it, %s.%s is the result of strconv applied to the whole (trimmed) text of attribute %q with base 10 and the field's bit size", tname, xf.Var.Name(), xf.Name)
+					}
 				}
 			case xf.Kind == c03Elem && len(xf.Parents) == 0:
 				n++
